@@ -173,19 +173,19 @@ theorem parseCtl_print (m size : Nat) (n : Str) (hm : m < 4096) (hs : size < 2 ^
 
 theorem dec_zero : dec 0 = [48] := by decide
 
-theorem parseTimes_print (mt atm : Nat) (h1 : mt < 2 ^ 63) (h2 : atm < 2 ^ 63) :
-    parseTimes (dec mt ++ cSp :: (dec 0 ++ cSp :: (dec atm ++ cSp :: (dec 0 ++ [])))) =
-      .ok (⟨mt, 0⟩, ⟨atm, 0⟩) := by
+theorem parseTimes_print (mt mu atm au : Nat) (h1 : mt < 2 ^ 63) (h2 : mu < 2 ^ 63) (h3 : atm < 2 ^ 63)
+    (h4 : au < 2 ^ 63) :
+    parseTimes (dec mt ++ cSp :: (dec mu ++ cSp :: (dec atm ++ cSp :: (dec au ++ [])))) =
+      .ok (⟨mt, mu⟩, ⟨atm, au⟩) := by
   have hsp : ∀ r : Str, ∀ c r', cSp :: r = c :: r' → isDigit c = false := by
     intro r c r' e; cases e; decide
-  have g1 : getnum PCP_LONG_BITS (dec mt ++ cSp :: (dec 0 ++ cSp :: (dec atm ++ cSp :: (dec 0 ++ [])))) = _ :=
-    getnum_dec mt h1 (cSp :: (dec 0 ++ cSp :: (dec atm ++ cSp :: (dec 0 ++ [])))) (hsp _)
-  have g2 : getnum PCP_LONG_BITS (dec 0 ++ cSp :: (dec atm ++ cSp :: (dec 0 ++ []))) = _ :=
-    getnum_dec 0 (by decide) (cSp :: (dec atm ++ cSp :: (dec 0 ++ []))) (hsp _)
-  have g3 : getnum PCP_LONG_BITS (dec atm ++ cSp :: (dec 0 ++ [])) = _ :=
-    getnum_dec atm h2 (cSp :: (dec 0 ++ [])) (hsp _)
-  have g4 : getnum PCP_LONG_BITS (dec 0 ++ []) = _ := getnum_dec 0 (by decide) [] (by intro c r e; cases e)
+  have g1 : getnum PCP_LONG_BITS (dec mt ++ cSp :: (dec mu ++ cSp :: (dec atm ++ cSp :: (dec au ++ [])))) = _ :=
+    getnum_dec mt h1 (cSp :: (dec mu ++ cSp :: (dec atm ++ cSp :: (dec au ++ [])))) (hsp _)
+  have g2 : getnum PCP_LONG_BITS (dec mu ++ cSp :: (dec atm ++ cSp :: (dec au ++ []))) = _ :=
+    getnum_dec mu h2 (cSp :: (dec atm ++ cSp :: (dec au ++ []))) (hsp _)
+  have g3 : getnum PCP_LONG_BITS (dec atm ++ cSp :: (dec au ++ [])) = _ :=
+    getnum_dec atm h3 (cSp :: (dec au ++ [])) (hsp _)
+  have g4 : getnum PCP_LONG_BITS (dec au ++ []) = _ := getnum_dec au h4 [] (by intro c r e; cases e)
   simp only [parseTimes, g1, g2, g3, g4, expect, ↓reduceIte]
-  rfl
 
 end PdshVerif.Pcp
